@@ -4,7 +4,7 @@ CONSTANTS
   PathIds = {"none", "name2", "par2", "in2"}
   Bodies = {"", "*", "inner"}
   MaxExtra = 1
-  ReqSetIds = {"none", "names"}
+  ReqSetIds = {"none", "names", "mixed"}
   PathValIds = {"i2", "s2"}
   VarLeaves = {"name", "parent", "inner.name", "inner.sub_title", "kind", "r_string"}
   Numerics = {FALSE, TRUE}
